@@ -13,6 +13,10 @@ mod verif_kani {
 
     fn raw(x: u64) -> Fr { ark_ff::Fp(ark_ff::BigInt([x, 0, 0, 0]), PhantomData) }
     fn limb(f: &Fr) -> u64 { f.0 .0[0] }
+    // limb-wise comparison: `==` on Fr is a 32-byte memcmp (needs an unwinding bound of 33)
+    fn same_fr(a: &Fr, b: &Fr) -> bool {
+        a.0 .0[0] == b.0 .0[0] && a.0 .0[1] == b.0 .0[1] && a.0 .0[2] == b.0 .0[2] && a.0 .0[3] == b.0 .0[3]
+    }
 
     // stand-in for crate::hashers::poseidon_hash: injective enough to tell order and arity apart, no field arithmetic
     fn toy_hash(input: &[Fr]) -> Fr {
@@ -45,7 +49,7 @@ mod verif_kani {
         let n: usize = kani::any();
         kani::assume(n <= 3);
         let got = compute_tree_root(&secret, &limit, &elems[..n], &bits[..n]);
-        assert!(got == fold_ref(&secret, &limit, &elems[..n], &bits[..n]), "compute_tree_root/root-is-fold-of-rate-commitment-along-path");
+        assert!(same_fr(&got, &fold_ref(&secret, &limit, &elems[..n], &bits[..n])), "compute_tree_root/root-is-fold-of-rate-commitment-along-path");
     }
 
     #[kani::proof]
